@@ -79,6 +79,10 @@ def run(allinput, splicers=None, outdirs=None, write_version=False, deep=True):
     wrapc.Wrapc.capsule_include = {}
     wrapp.Wrapp.capsule_code = {}
     wrapp.Wrapp.capsule_order = []
+    # The statement tables are specialised for the library's language IN PLACE (statements.update_for_language
+    # overwrites `clause` with `<lang>_clause` and never restores it), so a C library processed after a C++
+    # library in the same process gets C++ casts (same C07 observation).  Restore the pristine tables.
+    _restore_tables()
     try:
         typemap.initialize()
         newlibrary = ast.create_library_from_dictionary(allinput)
@@ -110,6 +114,33 @@ def run(allinput, splicers=None, outdirs=None, write_version=False, deep=True):
     return res
 
 
+_PRISTINE = {}
+
+
+def _restore_tables():
+    from shroud import statements, wrapp, wrapl
+    tabs = [(statements, "fc_statements"), (wrapp, "py_statements"), (wrapl, "lua_statements")]
+    for mod, name in tabs:
+        key = (mod.__name__, name)
+        cur = getattr(mod, name, None)
+        if cur is None:
+            continue
+        if key not in _PRISTINE:
+            _PRISTINE[key] = copy.deepcopy(cur)
+        else:
+            cur[:] = copy.deepcopy(_PRISTINE[key])
+    for mod, name in ((statements, "cf_tree"), (wrapp, "py_tree"), (wrapl, "lua_tree")):
+        t = getattr(mod, name, None)
+        if isinstance(t, dict):
+            t.clear()
+
+
 def load_yaml(text):
     import yaml
     return yaml.safe_load(text)
+
+
+try:
+    _restore_tables()        # first call: snapshot the tables as imported, before anything specialises them
+except Exception:            # pragma: no cover - shroud not importable yet (environment set-up)
+    pass
